@@ -106,6 +106,13 @@ type FuncVC struct {
 	assigned    map[string][]*Loc
 	skolems     map[string][][]Term
 	skolemFns   map[string][]skolemFn
+	pendingSk   []string // Skolem terms introduced under the universal being evaluated
+	undefVars   map[string]Term // locals referenced by a goal before they exist
+	midStates   map[string]*State // intermediate heaps of callees named by before()/after() in their contracts
+	neverState  *State // unconstrained heap standing for call sites not executed yet
+	watchHit    map[string]bool // labels that matched at least one call site
+	callPre     map[string][]*State // label -> heap before each execution site of a watched call
+	callPost    map[string][]*State // label -> heap after it (effects applied)
 	goalSkolemised bool // the last goal evaluation replaced a universal by fresh constants
 	funCache    map[string]string
 	stable      []*Loc
@@ -157,7 +164,7 @@ func NewFuncVC(p *Prog, fn *ssa.Function, c *Contract) *FuncVC {
 		loopOf: map[*ssa.BasicBlock]*loopInfo{}, nonNil: map[ssa.Value]bool{}, localAlloc: map[*ssa.Alloc]bool{},
 		debugRefs: map[string][]*ssa.DebugRef{}, typeIDs: map[string]int{}, concreteTypes: map[int]types.Type{}, ifaceTypes: map[int]types.Type{}, boxDecl: map[string]bool{},
 		funcDecl: map[string]bool{}, oblSeq: map[string]int{}, abstracted: map[string]int{},
-		assumedUsed: map[string]bool{}, contractUse: map[string]bool{}, iterOf: map[ssa.Value]*iterInfo{}, logicUsed: map[string]bool{}, logTypes: map[string]types.Type{}, axiomDone: map[*Clause]bool{}, skolems: map[string][][]Term{}, skolemFns: map[string][]skolemFn{}, funCache: map[string]string{}, escapes: map[ssa.Value][]ssa.Instruction{}, cellConst: map[*ssa.FreeVar]Term{}, freshVals: map[ssa.Value]bool{}, closureOf: map[string]*ssa.Function{}, closureMC: map[string]*ssa.MakeClosure{}, lemmasUsed: map[string]bool{}}
+		assumedUsed: map[string]bool{}, contractUse: map[string]bool{}, iterOf: map[ssa.Value]*iterInfo{}, logicUsed: map[string]bool{}, logTypes: map[string]types.Type{}, axiomDone: map[*Clause]bool{}, skolems: map[string][][]Term{}, skolemFns: map[string][]skolemFn{}, callPre: map[string][]*State{}, watchHit: map[string]bool{}, callPost: map[string][]*State{}, funCache: map[string]string{}, escapes: map[ssa.Value][]ssa.Instruction{}, cellConst: map[*ssa.FreeVar]Term{}, freshVals: map[ssa.Value]bool{}, closureOf: map[string]*ssa.Function{}, closureMC: map[string]*ssa.MakeClosure{}, lemmasUsed: map[string]bool{}}
 	if c != nil {
 		vc.watches = c.Watches
 		vc.bv = c.Mode == "bv"
@@ -198,6 +205,18 @@ func (vc *FuncVC) declare(name, sort string) Term {
 	}
 	vc.declared[n] = true
 	vc.emit(fmt.Sprintf("(declare-const %s %s)", n, sort))
+	return T(n, sort)
+}
+
+// declareGlobal declares a constant visible to every obligation of the function.
+func (vc *FuncVC) declareGlobal(name, sort string) Term {
+	n := sym(name)
+	for vc.declared[n] {
+		vc.seq++
+		n = sym(fmt.Sprintf("%s~%d", name, vc.seq))
+	}
+	vc.declared[n] = true
+	vc.preDecls = append(vc.preDecls, fmt.Sprintf("(declare-const %s %s)", n, sort))
 	return T(n, sort)
 }
 
@@ -401,6 +420,27 @@ func (vc *FuncVC) Run() (err error) {
 		vc.assume(Cmp("<", IntLit(0), t))
 		vc.vals[fv] = &Val{T: t, Typ: fv.Type()}
 		vc.nonNil[fv] = true
+		vc.assume(Select(vc.entryState.get("alloc"), vc.baseOf(t), SBool))
+	}
+	// different captured variables live in different cells (zero-size variables aside)
+	{
+		bySort := map[string][]Term{}
+		for _, fv := range fn.FreeVars {
+			elem := fv.Type().Underlying().(*types.Pointer).Elem()
+			if st, ok := elem.Underlying().(*types.Struct); ok && st.NumFields() == 0 {
+				continue
+			}
+			k := "struct"
+			if !isStruct(elem) {
+				k = vc.sortOf(elem)
+			}
+			bySort[k] = append(bySort[k], vc.vals[fv].T)
+		}
+		for _, k := range sortedKeys(bySort) {
+			if ts := bySort[k]; len(ts) > 1 {
+				vc.assume(T(app("distinct", ts...), SBool))
+			}
+		}
 	}
 	for _, b := range fn.Blocks {
 		for _, in := range b.Instrs {
@@ -440,6 +480,18 @@ func (vc *FuncVC) Run() (err error) {
 	vc.cover("cover.pre", tTrue)
 	for _, b := range vc.topoOrder() {
 		vc.execBlock(b)
+	}
+	// a watch that matches no call of the function makes every clause about it vacuous
+	for _, w := range vc.watches {
+		if pk, _ := splitWord(w.Pattern); pk == "closure" {
+			if vc.closureOf[w.Label] == nil {
+				return fmt.Errorf("watch %s = %s matches no closure of the function", w.Label, w.Pattern)
+			}
+			continue
+		}
+		if !vc.watchHit[w.Label] && !(vc.C != nil && vc.C.MayAbsent[w.Label]) {
+			return fmt.Errorf("watch %s = %s matches no call of the function", w.Label, w.Pattern)
+		}
 	}
 	return nil
 }
@@ -686,11 +738,16 @@ func (vc *FuncVC) loopInvs(li *loopInfo) []invFn {
 	}
 	// range over a map: the ranged map keeps the key set (and values) it had when the
 	// iteration started — checked like any invariant, so a body that updates it fails here
-	for _, in := range li.header.Instrs {
-		nx, ok := in.(*ssa.Next)
-		if !ok {
-			continue
+	var nexts []*ssa.Next
+	for l := li; l != nil; l = l.parent {
+		// (an inner loop must keep the maps ranged over by the loops around it, too)
+		for _, in := range l.header.Instrs {
+			if nx, ok := in.(*ssa.Next); ok {
+				nexts = append(nexts, nx)
+			}
 		}
+	}
+	for _, nx := range nexts {
 		it := vc.iterOf[nx.Iter]
 		if it == nil || it.isStr {
 			continue
